@@ -235,7 +235,8 @@ fn big_files() -> Vec<(String, Vec<u8>)> {
         i += 1;
     }
     let mut out = vec![("clean".to_string(), base.clone())];
-    for &off in [0usize, 1, 65_535, 65_536, 65_537, 65_450, 65_599, 70_000, base.len() - 2].iter() {
+    // (70_905 / 70_805: in the non-matching line one / two lines before the matching line 710)
+    for &off in [0usize, 1, 65_535, 65_536, 65_537, 65_450, 65_599, 70_000, 70_905, 70_805, base.len() - 2].iter() {
         let mut v = base.clone();
         v[off] = 0;
         out.push((format!("nul@{}", off), v));
@@ -359,6 +360,9 @@ pub fn run(args: &Args) -> ! {
         ("files", vec!["-l"]),
         ("only", vec!["-n", "-o"]),
         ("after", vec!["-n", "-A1"]),
+        ("before", vec!["-n", "-B1"]),
+        ("context", vec!["-n", "-C2"]),
+        ("multiline-before", vec!["-n", "-U", "-B1"]),
         ("passthru", vec!["-n", "--passthru"]),
         ("json", vec!["--json"]),
         ("multiline", vec!["-n", "-U"]),
@@ -424,6 +428,19 @@ pub fn run(args: &Args) -> ! {
                 why = Some("a NUL byte from the file reached stdout without --text".to_string());
             } else if modes[mi].0 == "standard" {
                 why = judge_standard(content, pat.as_bytes(), bin, &out.stdout);
+            } else if matches!(modes[mi].0, "after" | "before" | "context" | "multiline-before") && bin == Bin::Convert {
+                // the outcome table's last clause also holds with context: an
+                // explicit / --binary file is silent only if no line matches
+                let reference = text_reference(content, pat.as_bytes(), false);
+                let some_clean_match = reference.iter().any(|(_, l)| !l.contains(&0));
+                let printed_match = out.stdout.split(|&b| b == b'\n').any(|l| {
+                    let d = l.iter().take_while(|b| b.is_ascii_digit()).count();
+                    d > 0 && l.get(d) == Some(&b':')
+                });
+                let notice = out.stdout.windows(27).any(|w| w == b"binary file matches (found ");
+                if some_clean_match && !printed_match && !notice {
+                    why = Some("a line matches but there is neither a match nor a 'binary file matches' notice".to_string());
+                }
             }
             let mut acc = cli.lock().unwrap();
             acc.runs += 1;
@@ -475,7 +492,7 @@ pub fn run(args: &Args) -> ! {
     ev.set("runs_dropping_the_file", lib.dropped + cli.dropped);
     ev.set(
         "rule",
-        "files: 'm1\\nx2\\nm3\\nx4\\n' with one NUL inserted at every offset, one NUL replacing every byte (thorough: also every pair of insertions), two unterminated variants; real scale: a 130 KiB file of 100-byte lines with a NUL at offsets {0,1,65450,65535,65536,65537,65599,70000,len-2} and with the line straddling the 64 KiB sniff window being a matching line / a context line with its NUL beyond the window. Library level: Searcher + Standard printer, detection quit/convert/none x roll-buffer capacity {1,2,3,4,6} x read size {1,2,3,64} x slice x multi-line x context 0/1. CLI level: rg on every file x {implicit (directory), explicit path, stdin} x {default, --binary, --text} x {--mmap, --no-mmap} x {-n, -c, -l, -o, -A1, --passthru, --json, -U, -v, -r X} x pattern {m, never}. Oracle: no NUL byte on the output unless text mode; for standard output the statement's outcome table (printed lines = a prefix of the text-mode lines, all before the NUL; traversed: warning iff cut off after a printed line, never a notice; explicit/--binary: at most the notice, silence only if nothing matches); --text == reference with detection disabled. distinct_nontrivial = runs on files that contain a NUL.",
+        "files: 'm1\\nx2\\nm3\\nx4\\n' with one NUL inserted at every offset, one NUL replacing every byte (thorough: also every pair of insertions), two unterminated variants; real scale: a 130 KiB file of 100-byte lines with a NUL at offsets {0,1,65450,65535,65536,65537,65599,70000,70805,70905 (inside the before-context window of the next match),len-2} and with the line straddling the 64 KiB sniff window being a matching line / a context line with its NUL beyond the window. Library level: Searcher + Standard printer, detection quit/convert/none x roll-buffer capacity {1,2,3,4,6} x read size {1,2,3,64} x slice x multi-line x context 0/1. CLI level: rg on every file x {implicit (directory), explicit path, stdin} x {default, --binary, --text} x {--mmap, --no-mmap} x {-n, -c, -l, -o, -A1, -B1, -C2, -U -B1, --passthru, --json, -U, -v, -r X} x pattern {m, never}. Oracle: no NUL byte on the output unless text mode; for standard output the statement's outcome table (printed lines = a prefix of the text-mode lines, all before the NUL; traversed: warning iff cut off after a printed line, never a notice; explicit/--binary: at most the notice, silence only if nothing matches); --text == reference with detection disabled; in the context modes an explicit / --binary file with a NUL-free matching line must show a match or the notice. distinct_nontrivial = runs on files that contain a NUL.",
     );
     ev.set("samples", json!([{"file": "m1\\nx2\\n\\x00m3\\nx4\\n", "mode": "explicit --no-mmap -n", "expected": "1:m1 then 'binary file matches' notice or just the notice"}]));
     ev.assume("--null-data is outside the property (it disables detection by design)");
